@@ -67,6 +67,9 @@ pub struct Profile {
     pub allow_dubious_pct: u64,
     /// Finish with a run during which the local store fails (C33).
     pub store_fault: bool,
+    /// Finish with a differential pair of runs: the same world and cache
+    /// without and with a fault in one repository (C41).
+    pub differential: bool,
 }
 
 #[derive(Clone, Copy, Debug, PartialEq, Eq, PartialOrd, Ord)]
@@ -117,6 +120,7 @@ impl Profile {
             refresh_swarm: false,
             allow_dubious_pct: 0,
             store_fault: false,
+            differential: false,
         }
     }
 
@@ -227,6 +231,9 @@ pub struct Sim {
     /// Overwrite an RRDP archive with garbage before the next run.
     pub corrupt_archive: bool,
     pub store_fault_now: bool,
+    pub diff_now: bool,
+    /// Operations apply to this CA instead of a random one.
+    pub force_ca: Option<usize>,
     /// Server-mode state.
     pub server: Option<ServerState>,
     pub tal_labels: BTreeMap<String, String>,
@@ -272,6 +279,10 @@ pub fn run(
     }
     if profile.store_fault && sim.violations.is_empty() {
         sim.store_fault_now = true;
+        sim.step(profile.steps, mask);
+    }
+    if profile.differential && sim.violations.is_empty() {
+        sim.diff_now = true;
         sim.step(profile.steps, mask);
     }
     sim.finish()
@@ -342,6 +353,8 @@ impl Sim {
             ta_files: BTreeMap::new(),
             corrupt_archive: false,
             store_fault_now: false,
+            diff_now: false,
+            force_ca: None,
             server: None,
             tal_labels: BTreeMap::new(),
             min_refresh: None,
@@ -606,6 +619,11 @@ impl Sim {
             self.store_fault_run(step, &expect, &transport);
             return
         }
+        let diff_base = self.scratch.join("diff-base");
+        if self.diff_now {
+            let _ = std::fs::remove_dir_all(&diff_base);
+            crate::engb::copy_dir(&self.scratch.join("cache"), &diff_base);
+        }
         let real = self.real_run(step);
         self.stats.steps += 1;
         if let (Some(before), Ok(_)) = (before.as_ref(), real.as_ref()) {
@@ -618,6 +636,9 @@ impl Sim {
                 self.check_history_clients(step);
                 self.state = state;
                 self.check_store(step, &expect);
+                if self.diff_now && self.violations.is_empty() {
+                    self.differential(step, &diff_base, &snapshot);
+                }
             }
             Err(msg) => {
                 self.violation(
@@ -652,6 +673,17 @@ impl Sim {
             0..=2 => None,
             3 => Some(20_000_000),
             _ if sizes.is_empty() => Some(2000),
+            4 | 5 => {
+                // A limit below an object's size that coincides with a read
+                // boundary of the transfer: a multiple of the body chunk
+                // sizes of the simulated transport (7, 100) or of the block
+                // size of the base64 decoder for RRDP objects (768).
+                let size = *rng.pick(&sizes);
+                let unit = *rng.pick(&[700u64, 768, 100, 7 * 61]);
+                let k = (size.saturating_sub(1)) / unit;
+                if k == 0 { Some(size - 1) }
+                else { Some(unit * (1 + rng.below(k))) }
+            }
             _ => {
                 let size = *rng.pick(&sizes);
                 Some((size as i64 + rng.range(-1, 1)) as u64)
@@ -661,6 +693,8 @@ impl Sim {
         self.stats.fault(match limit {
             None => "limit-disabled",
             Some(20_000_000) => "limit-default",
+            Some(l) if l % 700 == 0 || l % 768 == 0 || l % 100 == 0
+                || l % 427 == 0 => "limit-at-read-boundary",
             _ => "limit-at-object-size",
         });
         self.note(format!("object size limit {limit:?} (sizes {sizes:?})"));
@@ -690,6 +724,9 @@ impl Sim {
     }
 
     fn pick_ca(&self, rng: &mut Rng) -> usize {
+        if let Some(ca) = self.force_ca {
+            return ca
+        }
         rng.usize(self.world.cas.len())
     }
 
@@ -2855,6 +2892,245 @@ impl Sim {
                     v.class = "failure-swallowed".into();
                 }
             }
+        }
+    }
+}
+
+
+//------------ C41: differential runs -------------------------------------
+
+impl Sim {
+    /// Repeats the run of this step from the same cache with a fault placed
+    /// in one repository and compares the two results.
+    fn differential(
+        &mut self, step: usize, base: &Path, without: &PayloadSnapshot
+    ) {
+        let mut rng = Rng::new(mix(&[self.seed, 500, step as u64]));
+        let candidates: Vec<usize> = (0..self.world.cas.len()).filter(|ca| {
+            self.world.cas[*ca].active && !self.history[*ca].is_empty()
+        }).collect();
+        if candidates.is_empty() { return }
+        let base_ca = *rng.pick(&candidates);
+        let repo = self.world.cas[base_ca].rrdp;
+        let module = self.world.cas[base_ca].module_uri();
+        // Everything published in the same repository.
+        let mut roots: BTreeSet<usize> = (0..self.world.cas.len()).filter(|ca| {
+            let spec = &self.world.cas[*ca];
+            (repo.is_some() && spec.rrdp == repo)
+                || spec.module_uri() == module
+        }).collect();
+        for tal in &self.world.tals {
+            if tal.uris.iter().any(|uri| {
+                uri.starts_with("rsync://") && model::module_of(uri) == module
+            }) {
+                roots.insert(tal.ca);
+            }
+        }
+        let notify = repo.map(|r| self.world.repos[r].notify_uri());
+        let mut kind = rng.below(4);
+        let mut what = String::new();
+        self.restore_cache(base);
+        if kind == 1 {
+            // Corrupt local archive of the RRDP repository.
+            let auth = notify.as_ref().map(|n| {
+                n.trim_start_matches("https://").split('/').next()
+                    .unwrap_or("").to_string()
+            });
+            let victim = auth.and_then(|auth| {
+                self.list_cache().archives.into_iter().find(|a| {
+                    a.split('/').next() == Some(auth.as_str())
+                })
+            });
+            match victim {
+                Some(victim) => {
+                    let path = self.scratch.join("cache").join("rrdp")
+                        .join(&victim);
+                    let mut data = std::fs::read(&path).unwrap_or_default();
+                    for b in data.iter_mut().skip(40).take(4000) { *b = 0xff }
+                    let _ = std::fs::write(&path, data);
+                    what = format!("corrupt local archive {victim}");
+                }
+                None => kind = 0,
+            }
+        }
+        match kind {
+            0 => {
+                let both = rng.chance(50, 100);
+                match notify.as_ref() {
+                    Some(notify) => {
+                        self.rrdp_fail.insert(notify.clone());
+                        if both { self.rsync_fail.insert(module.clone()); }
+                        what = format!(
+                            "unreachable: {notify}{}", if both {
+                                format!(" and {module}")
+                            } else { String::new() }
+                        );
+                    }
+                    None => {
+                        self.rsync_fail.insert(module.clone());
+                        what = format!("unreachable: {module}");
+                    }
+                }
+            }
+            1 => { }
+            _ => {
+                use OpKind::*;
+                let kinds: &[OpKind] = if kind == 2 {
+                    &[SigFaultObj, HashMismatch, MissingFile, OverclaimObj,
+                      TimeFaultObj, Unlisted, CrlMissing, CrlGarbage,
+                      CrlWrongKey, MftGarbage, MftWrongKey, RemoveObj]
+                } else {
+                    &[MftStale, CrlStale, ExpireMftEe, MftPremature]
+                };
+                let targets: Vec<usize> = roots.iter().copied().filter(|ca| {
+                    self.world.cas[*ca].active
+                }).collect();
+                let n = 1 + rng.usize(targets.len().min(3));
+                let mut names = Vec::new();
+                for i in 0..n {
+                    let ca = *rng.pick(&targets);
+                    let op = *rng.pick(kinds);
+                    self.force_ca = Some(ca);
+                    let mut orng = Rng::new(mix(&[
+                        self.seed, 501, step as u64, i as u64
+                    ]));
+                    self.apply_op(step, 900 + i, op, &mut orng);
+                    self.force_ca = None;
+                    names.push(format!("{op:?} at ca{ca}"));
+                }
+                what = format!("bad content: {}", names.join(", "));
+            }
+        }
+        // The subtree: the CAs of the repository and all their descendants.
+        let mut affected = roots.clone();
+        loop {
+            let mut grew = false;
+            for ca in 0..self.world.cas.len() {
+                if let Some(parent) = self.world.cas[ca].parent {
+                    if affected.contains(&parent) && affected.insert(ca) {
+                        grew = true;
+                    }
+                }
+            }
+            if !grew { break }
+        }
+        self.stats.fault(&format!("diff-fault-{kind}"));
+        self.note(format!(
+            "step {step}: differential run with {what}; affected subtree {:?}",
+            affected
+        ));
+        self.ops.push(json!({
+            "step": step, "op": "differential", "fault": what,
+            "affected": affected.iter().collect::<Vec<_>>()
+        }));
+        self.engine = None;
+        self.publish(step);
+        let _transport = self.build_servers(step);
+        self.reset_perm(step);
+        let mut real = self.real_run(step);
+        if matches!(&real, Err(msg) if msg.contains("fatal=false")) {
+            // What the server and the commands do: one retry.
+            self.stats.probe("diff-run-retried");
+            self.engine = None;
+            real = self.real_run(step);
+        }
+        self.stats.steps += 1;
+        let with = match real {
+            Ok((snapshot, _)) => snapshot,
+            Err(msg) => {
+                self.violation("C41", "run-failed", step, format!(
+                    "with the fault \"{what}\" in one repository the whole \
+                     run fails: {msg}"
+                ));
+                return
+            }
+        };
+        // Everything the subtree could contribute: all versions ever
+        // published by its CAs.
+        let mut aff = PayloadSet::default();
+        let mut aff_res_v4 = Vec::new();
+        let mut aff_res_v6 = Vec::new();
+        for ca in &affected {
+            aff_res_v4.extend(self.world.cas[*ca].cert.res.v4.iter().copied());
+            aff_res_v6.extend(self.world.cas[*ca].cert.res.v6.iter().copied());
+            for version in &self.history[*ca] {
+                for id in version.published.values() {
+                    match &self.files.get(*id).kind {
+                        FileKind::Obj(info) => {
+                            let items = model::raw_items_of(&info.payload);
+                            aff.origins.extend(items.origins);
+                            aff.keys.extend(items.keys);
+                            for (customer, providers) in items.aspas {
+                                aff.aspas.entry(customer).or_default()
+                                    .extend(providers);
+                            }
+                        }
+                        FileKind::CaCert(info) => {
+                            aff_res_v4.extend(info.res.v4.iter().copied());
+                            aff_res_v6.extend(info.res.v6.iter().copied());
+                        }
+                        _ => { }
+                    }
+                }
+            }
+        }
+        let reject = self.cfg.unsafe_vrps == Policy::Reject;
+        let excused = |item: &(u32, Pfx, u8)| -> bool {
+            if aff.origins.contains(item) { return true }
+            if !reject { return false }
+            match item.1 {
+                Pfx::V4(p) => aff_res_v4.iter().any(|r| r.overlaps(p)),
+                Pfx::V6(p) => aff_res_v6.iter().any(|r| r.overlaps(p)),
+            }
+        };
+        let (a, _) = snapshot_to_set(without);
+        let (b, _) = snapshot_to_set(&with);
+        let mut problems = Vec::new();
+        for item in a.origins.symmetric_difference(&b.origins) {
+            if !excused(item) {
+                problems.push(format!(
+                    "VRP {:?} {} the fault", item,
+                    if a.origins.contains(item) { "disappears with" }
+                    else { "appears with" }
+                ));
+            }
+        }
+        for item in a.keys.symmetric_difference(&b.keys) {
+            if !aff.keys.contains(item) {
+                problems.push(format!(
+                    "router key of AS{} {} the fault", item.1,
+                    if a.keys.contains(item) { "disappears with" }
+                    else { "appears with" }
+                ));
+            }
+        }
+        let customers: BTreeSet<u32> = a.aspas.keys().chain(b.aspas.keys())
+            .copied().collect();
+        for customer in customers {
+            if a.aspas.get(&customer) != b.aspas.get(&customer)
+                && !aff.aspas.contains_key(&customer)
+            {
+                problems.push(format!(
+                    "ASPA of AS{customer} differs: {:?} without, {:?} with \
+                     the fault", a.aspas.get(&customer), b.aspas.get(&customer)
+                ));
+            }
+        }
+        self.stats.probe(if a == b { "diff-same-result" } else { "diff-result-differs" });
+        if a.origins.iter().any(|item| !excused(item))
+            || a.keys.iter().any(|item| !aff.keys.contains(item))
+        {
+            self.stats.probe("diff-payload-outside-subtree");
+            if a != b {
+                self.stats.probe("diff-differs-and-payload-outside-subtree");
+            }
+        }
+        if !problems.is_empty() {
+            self.violation("C41", "outside-subtree", step, format!(
+                "fault \"{what}\" (subtree {:?}) changes payload that no CA \
+                 of that subtree ever published: {}",
+                affected, problems.join("; ")
+            ));
         }
     }
 }
